@@ -64,6 +64,9 @@ RECURSIVE SetToSeq(_)
 SetToSeq(S) == IF S = {} THEN <<>> ELSE LET m == CHOOSE m \in S : \A o \in S : m <= o IN <<m>> \o SetToSeq(S \ {m})
 ExportScenario == PrintT(<<"REPLAY", ToJson([kind |-> "shamir", points |-> SetToSeq(points), t |-> t, revealed |-> SetToSeq(revealed),
                      expect |-> IF revealed = {} THEN "zero" ELSE IF Cardinality(revealed) >= t THEN "secret" ELSE "unrelated"])>>)
+(* a threshold is a number in 1..255 (one byte); larger requests are refused, never reduced *)
+ThresholdOk(n) == n >= 1 /\ n <= 255
+ASSUME PrintT(<<"ROWS", ToJson({[kind |-> "threshold", n |-> n, ok |-> ThresholdOk(n)] : n \in {0, 1, 2, 254, 255, 256, 257, 511, 512, 513, 65536, 65537}})>>)
 (* the dealer's polynomial is what the shares are: one share per point, in the field *)
 SharesInField == \A p \in points : Share[p] \in Fld
 =============================================================================
